@@ -78,6 +78,7 @@ type content struct {
 	EndID, StartID []byte
 	NEnd           int
 	Variant        int
+	PreHop         bool
 	Task           string
 	CollID, PartID int64
 }
@@ -292,6 +293,7 @@ func genContent(m map[string]interface{}) *rapid.Generator[*content] {
 		c.NEnd = rapid.IntRange(1, 2).Draw(t, "nend")
 		c.Variant = rapid.IntRange(0, 1<<20).Draw(t, "variant")
 		c.Task = nameGen.Draw(t, "task")
+		c.PreHop = hx.S(m, "pre") == "hop"
 		c.CollID = rapid.Int64Range(1, 1<<40).Draw(t, "collid")
 		c.PartID = rapid.Int64Range(1, 1<<40).Draw(t, "partid")
 		return c
@@ -301,8 +303,14 @@ func genContent(m map[string]interface{}) *rapid.Generator[*content] {
 // ---------------------------------------------------------------- message construction
 
 func base(mt commonpb.MsgType, c *content, ts uint64) *commonpb.MsgBase {
-	return &commonpb.MsgBase{MsgType: mt, MsgID: c.MsgIDNum, Timestamp: ts, SourceID: c.SourceID}
+	b := &commonpb.MsgBase{MsgType: mt, MsgID: c.MsgIDNum, Timestamp: ts, SourceID: c.SourceID}
+	if c.PreHop { // the source was itself a replication target: the message carries the stamp of the earlier hop
+		b.ReplicateInfo = &commonpb.ReplicateInfo{IsReplicate: true, MsgTimestamp: staleStamp(c), ReplicateID: "earlier-hop"}
+	}
+	return b
 }
+
+func staleStamp(c *content) uint64 { return c.T - 99_999_999 }
 
 // opRequest builds the source request of an op kind; the returned message is what the reader hands to the
 // writer: the request marshalled and decoded again by msgstream's dispatcher (timestamps from Base.Timestamp).
@@ -813,7 +821,7 @@ func runStep(p *hx.Plan, idx int, st map[string]interface{}) hx.Event {
 		for _, m := range pack.Msgs {
 			m.SetPosition(pack.EndPositions[len(pack.EndPositions)-1])
 		}
-		cands = stampCands{names: []string{"endpos", "msgts", "startpos"}, vals: []uint64{pts, mts, c.T - 7777}}
+		cands = stampCands{names: []string{"endpos", "msgts", "startpos", "stale"}, vals: []uint64{pts, mts, c.T - 7777, staleStamp(c)}}
 		if fail {
 			h.FailKinds[callKind(kind)] = true
 		}
